@@ -185,7 +185,7 @@ def term_atoms(t, out=None):
             for a in t[2]:
                 term_atoms(a, out)
         return out
-    for x in t[1:]:
+    for x in (t[1:] if isinstance(t[0], str) else t):
         if isinstance(x, tuple):
             term_atoms(x, out)
     return out
@@ -194,6 +194,9 @@ def term_atoms(t, out=None):
 def term_has(t, pred):
     if not isinstance(t, tuple) or not t:
         return False
+    if not isinstance(t[0], str):
+        # a plain tuple of terms (call arguments, aggregate operands)
+        return any(term_has(x, pred) for x in t)
     try:
         if pred(t):
             return True
